@@ -386,6 +386,20 @@ def unroll_table_loops(fn_node, module=None, max_rows=64, pure=None):
             return None
         table = st.iter
         between = []
+        # for k, v in enumerate((a, b, c)):  the rows are (0, a), (1, b), (2, c)
+        if isinstance(table, ast.Call) and isinstance(table.func, ast.Name) and table.func.id == 'enumerate' and len(table.args) == 1 and not table.keywords \
+                and len(targets) == 2:
+            inner = table.args[0]
+            if isinstance(inner, ast.Name):
+                for j in range(len(before) - 1, -1, -1):
+                    b = before[j]
+                    if isinstance(b, ast.Assign) and len(b.targets) == 1 and isinstance(b.targets[0], ast.Name) and b.targets[0].id == inner.id:
+                        if not (_assigned_names(before[j + 1:]) & {inner.id}):
+                            between = before[j + 1:]
+                            inner = b.value
+                        break
+            if isinstance(inner, (ast.Tuple, ast.List)) and inner.elts and not any(isinstance(e, ast.Starred) for e in inner.elts):
+                table = ast.Tuple(elts=[ast.Tuple(elts=[ast.Constant(value=k), e], ctx=ast.Load()) for k, e in enumerate(inner.elts)], ctx=ast.Load())
         drows = _dict_rows(st.iter, len(targets), module, fn)
         if drows is not None:
             table = ast.Tuple(elts=[(r[0] if len(r) == 1 else ast.Tuple(elts=list(r), ctx=ast.Load())) for r in drows], ctx=ast.Load())
